@@ -25,11 +25,14 @@ pub enum Beh { Ok { y: u8, sleep: u8 }, Err { y: u8, sleep: u8 }, Slow, SlowErr 
 pub enum Variant { FuturesFallible, FuturesNonFallible, Fallibles, NonFuturesFallible, NonFuturesNonFallible }
 
 #[derive(Clone, Debug)]
-pub struct Cfg { pub variant: Variant, pub timeout_ms: u64, pub instruments: usize, pub limit: u32, pub rt: Rt, pub script: Vec<Beh> }
+pub struct Cfg { pub variant: Variant, pub timeout_ms: u64, pub instruments: usize, pub limit: u32, pub rt: Rt, pub script: Vec<Beh>,
+    /// multi-thread runtime with a timeout only: the first item reaches the executor this many (real) milliseconds after the executor was spawned
+    /// (an executor that has lived longer than its timeout), and ok / error items then suspend for a few yields
+    pub aged_ms: u64 }
 impl Cfg {
     pub fn json(&self) -> J {
         J::obj().with("executor", J::s(format!("{:?}", self.variant))).with("futures_timeout_ms", J::i(self.timeout_ms as i64)).with("instruments", J::s(INSTR_NAMES[self.instruments])).with("concurrency_limit", J::i(self.limit as i64))
-            .with("runtime", J::s(self.rt.describe())).with("items", J::s(format!("{:?}", &self.script[..self.script.len().min(40)]))).with("n_items", J::i(self.script.len() as i64))
+            .with("runtime", J::s(self.rt.describe())).with("items", J::s(format!("{:?}", &self.script[..self.script.len().min(40)]))).with("n_items", J::i(self.script.len() as i64)).with("first_item_arrives_after_ms", J::i(self.aged_ms as i64))
     }
 }
 
@@ -54,6 +57,12 @@ async fn item_future(ledger: Arc<Ledger>, i: u32, beh: Beh, paused: bool, timeou
     }
 }
 
+/// delays the first element of `s` by `ms` milliseconds (the executor is already running and waiting for it)
+fn aged<S: futures::Stream + Send + 'static>(s: S, ms: u64) -> impl futures::Stream<Item = S::Item> + Send + 'static where S::Item: Send + 'static {
+    use futures::StreamExt;
+    stream::once(async move { if ms > 0 { tokio::time::sleep(Duration::from_millis(ms)).await } }).map(|_| None).chain(s.map(Some)).filter_map(futures::future::ready)
+}
+
 async fn drive<const I: usize>(cfg: Cfg, ledger: Arc<Ledger>) -> Observed {
     let (tx, rx) = tokio::sync::oneshot::channel::<Observed>();
     let exec = if cfg.timeout_ms > 0 { StreamExecutor::<I>::with_futures_timeout("rmv-c11", Duration::from_millis(cfg.timeout_ms)) } else { StreamExecutor::<I>::new("rmv-c11") };
@@ -73,11 +82,11 @@ async fn drive<const I: usize>(cfg: Cfg, ledger: Arc<Ledger>) -> Observed {
             let (l3, l4) = (ledger.clone(), ledger.clone());
             let on_err = move |e: Box<dyn std::error::Error + Send + Sync>| { let l = l4.clone(); async move { let id = e.downcast_ref::<ItemError>().map(|x| x.0).unwrap_or(u32::MAX); l.err_callbacks.lock().unwrap().push(id) } };
             let t = cfg.timeout_ms;
-            exec.spawn_executor(cfg.limit, on_err, on_close, stream::iter(script.into_iter().enumerate().map(move |(i, b)| item_future(l3.clone(), i as u32, b, paused, t))));
+            exec.spawn_executor(cfg.limit, on_err, on_close, aged(stream::iter(script.into_iter().enumerate().map(move |(i, b)| item_future(l3.clone(), i as u32, b, paused, t))), cfg.aged_ms));
         }
         Variant::FuturesNonFallible => {
             let l3 = ledger.clone(); let t = cfg.timeout_ms;
-            exec.spawn_futures_executor(cfg.limit, on_close, stream::iter(script.into_iter().enumerate().map(move |(i, b)| { let l = l3.clone(); async move { item_future(l, i as u32, b, paused, t).await.unwrap_or(u32::MAX) } })));
+            exec.spawn_futures_executor(cfg.limit, on_close, aged(stream::iter(script.into_iter().enumerate().map(move |(i, b)| { let l = l3.clone(); async move { item_future(l, i as u32, b, paused, t).await.unwrap_or(u32::MAX) } })), cfg.aged_ms));
         }
         Variant::Fallibles | Variant::NonFuturesFallible => {
             let (l3, l4) = (ledger.clone(), ledger.clone());
@@ -104,10 +113,12 @@ pub fn draw_cfg(rng: &mut Rng, only: Option<&str>, thorough: bool) -> Cfg {
     let timeout_ms = if futures && rng.chance(1, 2) { if rt == Rt::CurrentPaused { 100 } else { 25 } } else { 0 };
     let len = if rng.chance(1, 4) { rng.below(5) as usize } else { rng.below(if thorough { 65 } else { 33 }) as usize };
     let paused = rt == Rt::CurrentPaused;
+    let aged_ms = if !paused && timeout_ms > 0 && rng.chance(1, 3) { 2 * timeout_ms } else { 0 };
     let mut script = Vec::new();
     for _ in 0..len {
-        // on the multi-thread runtime with a timeout, ok / error items are ready at their first poll (see the module doc)
-        let (y, sleep) = if !paused && timeout_ms > 0 { (0, 0) } else { (rng.below(4) as u8, if paused { rng.below(6) as u8 } else { 0 }) };
+        // on the multi-thread runtime with a timeout, ok / error items are ready at their first poll (see the module doc) -- except in
+        // the `aged` runs, where they suspend for a few yields and the verdict rests on how long a cancelled item had been in flight
+        let (y, sleep) = if aged_ms > 0 { (1 + rng.below(3) as u8, 0) } else if !paused && timeout_ms > 0 { (0, 0) } else { (rng.below(4) as u8, if paused { rng.below(6) as u8 } else { 0 }) };
         let b = match (variant, rng.below(10)) {
             (Variant::FuturesFallible, 0..=4) => Beh::Ok { y, sleep }, (Variant::FuturesFallible, 5..=6) => Beh::Err { y, sleep }, (Variant::FuturesFallible, 7..=8) => Beh::Slow, (Variant::FuturesFallible, _) => Beh::SlowErr,
             (Variant::FuturesNonFallible, 0..=6) => Beh::Ok { y, sleep }, (Variant::FuturesNonFallible, _) => Beh::Slow,
@@ -118,7 +129,7 @@ pub fn draw_cfg(rng: &mut Rng, only: Option<&str>, thorough: bool) -> Cfg {
     }
     // on the multi-thread runtime keep the number of never-completing items small (each costs one real timeout)
     if !paused && timeout_ms > 0 { let mut slow = 0; for b in script.iter_mut() { if matches!(b, Beh::Slow | Beh::SlowErr) { slow += 1; if slow > 6 { *b = Beh::Ok { y: 0, sleep: 0 } } } } }
-    Cfg { variant, timeout_ms, instruments: rng.below(6) as usize, limit: 1 + rng.below(8) as u32, rt, script }
+    Cfg { variant, timeout_ms, instruments: rng.below(6) as usize, limit: 1 + rng.below(8) as u32, rt, script, aged_ms }
 }
 
 pub fn evaluate(cfg: &Cfg, ledger: &Ledger, o: &Observed) -> Vec<(String, String)> {
@@ -127,7 +138,17 @@ pub fn evaluate(cfg: &Cfg, ledger: &Ledger, o: &Observed) -> Vec<(String, String
     let with_timeout = cfg.timeout_ms > 0;
     let count = |f: &dyn Fn(&Beh) -> bool| cfg.script.iter().filter(|b| f(b)).count() as u32;
     let (n_ok, n_err, n_slow, n_slowerr) = (count(&|b| matches!(b, Beh::Ok { .. })), count(&|b| matches!(b, Beh::Err { .. })), count(&|b| matches!(b, Beh::Slow)), count(&|b| matches!(b, Beh::SlowErr)));
-    let (exp_ok, exp_failed, exp_timed) = if with_timeout { (n_ok, n_err, n_slow + n_slowerr) } else if cfg.variant == Variant::FuturesNonFallible { (n, 0, 0) } else { (n_ok + n_slow, n_err + n_slowerr, 0) };
+    let (mut exp_ok, mut exp_failed, mut exp_timed) = if with_timeout { (n_ok, n_err, n_slow + n_slowerr) } else if cfg.variant == Variant::FuturesNonFallible { (n, 0, 0) } else { (n_ok + n_slow, n_err + n_slowerr, 0) };
+    // A timeout may cancel an item only after the item has been in flight for the whole timeout (measured by the item itself, first poll .. drop, on the
+    // runtime's clock). An ok / error item that WAS in flight that long -- possible on the multi-thread runtime when the machine stalls -- is legitimately
+    // timed out and is accounted as such; one cancelled earlier is a violation whatever the load.
+    let cancelled: Vec<(u32, u64)> = ledger.cancelled_after_ms.lock().unwrap().clone();
+    let mut legit_timeouts: Vec<u32> = Vec::new();
+    for (i, ms) in &cancelled {
+        if with_timeout && *ms < cfg.timeout_ms { p.push(("item_timed_out_early".into(), format!("item {i} ({:?}) was cancelled {ms} ms after its first poll; the futures timeout is {} ms", cfg.script[*i as usize], cfg.timeout_ms))) }
+        else if with_timeout { match cfg.script[*i as usize] { Beh::Ok { .. } => { exp_ok -= 1; exp_timed += 1; legit_timeouts.push(*i) } Beh::Err { .. } => { exp_failed -= 1; exp_timed += 1; legit_timeouts.push(*i) } _ => {} } }
+        if p.len() > 6 { break }
+    }
     if metrics_on(cfg.instruments) {
         if o.ok + o.timed_out + o.failed != n { p.push(("counters_do_not_add_up".into(), format!("{n} items went through the executor, the counters say ok={} + timed_out={} + failed={} = {}", o.ok, o.timed_out, o.failed, o.ok + o.timed_out + o.failed))) }
         if o.ok != exp_ok { p.push(("ok_count".into(), format!("{exp_ok} item(s) succeeded, the ok counter says {}", o.ok))) }
@@ -137,7 +158,7 @@ pub fn evaluate(cfg: &Cfg, ledger: &Ledger, o: &Observed) -> Vec<(String, String
     // the error callback: exactly once per failed item, never otherwise
     if matches!(cfg.variant, Variant::FuturesFallible | Variant::Fallibles) {
         let mut cbs = ledger.err_callbacks.lock().unwrap().clone(); cbs.sort();
-        let mut expect: Vec<u32> = cfg.script.iter().enumerate().filter(|(_, b)| matches!(b, Beh::Err { .. }) || (!with_timeout && matches!(b, Beh::SlowErr))).map(|(i, _)| i as u32).collect(); expect.sort();
+        let mut expect: Vec<u32> = cfg.script.iter().enumerate().filter(|(i, b)| (matches!(b, Beh::Err { .. }) && !legit_timeouts.contains(&(*i as u32))) || (!with_timeout && matches!(b, Beh::SlowErr))).map(|(i, _)| i as u32).collect(); expect.sort();
         if cbs != expect { p.push(("error_callback".into(), format!("the error callback was invoked for items {:?}, the failed items are {:?}", &cbs[..cbs.len().min(20)], &expect[..expect.len().min(20)]))) }
     }
     // every item was processed (a failed or timed-out one does not stop the later ones); slow ones were cancelled when a timeout is set
@@ -148,6 +169,7 @@ pub fn evaluate(cfg: &Cfg, ledger: &Ledger, o: &Observed) -> Vec<(String, String
             (0, _) => p.push(("item_never_processed".into(), format!("item {i} ({:?}) was never started although the stream yielded it", b))),
             (1, _) => p.push(("item_still_running_at_close".into(), format!("item {i} ({:?}) was started and is neither completed nor dropped when the close callback runs", b))),
             (2, true) => p.push(("slow_item_not_cancelled".into(), format!("item {i} ({:?}) takes 10x the timeout and was allowed to complete", b))),
+            (3, false) if legit_timeouts.contains(&(i as u32)) => {}
             (3, false) => p.push(("item_cancelled".into(), format!("item {i} ({:?}) was dropped before completing although no timeout applies to it", b))),
             _ => {}
         }
@@ -175,7 +197,35 @@ pub fn run_one(cfg: &Cfg) -> (Option<Observed>, Arc<Ledger>) {
     (o, ledger)
 }
 
-pub fn run(args: &Args, acc: &mut Acc) { run_loop(args, acc, single) }
+pub fn run(args: &Args, acc: &mut Acc) { if args.get("workload") == Some("wrappers") { run_loop(args, acc, wrappers) } else { run_loop(args, acc, single) } }
+
+/// workload `wrappers`: the concurrency limit as seen through the `Uni` / `Multi` wrappers (the pipelines of C06): a Uni runs MAX_STREAMS executors and
+/// a Multi one executor per listener, each with the configured limit, so at no instant may more than limit x executors item futures be in progress
+/// (gauge kept by the item futures themselves: first poll .. completion or drop)
+fn wrappers(args: &Args, acc: &mut Acc, seed: u64, verbose: bool) {
+    use super::c06;
+    let mut rng = Rng::new(seed);
+    let mut cfg = c06::draw_cfg(&mut rng, args.only.as_deref());
+    // futures executors only (synchronous items are never "in progress" concurrently), and enough events for the gauge to matter
+    cfg.exec = if cfg.kind.starts_with("multi") { c06::Exec::FuturesFallible } else { *rng.pick(&[c06::Exec::FuturesFallible, c06::Exec::Futures]) };
+    let n = 4 + rng.below(12) as usize;
+    cfg.items = (0..n).map(|_| if rng.chance(1, 2) { c06::Item::Yields(1 + rng.below(3) as u8) } else { c06::Item::Sleeps(1 + rng.below(5) as u8) }).collect();
+    cfg.second_close = false; cfg.cancel_before_close = false;
+    let (snap, ledger) = c06::run_case(&cfg);
+    acc.evaluations += 1;
+    acc.count(&format!("wrapper_runs[{}]", if cfg.kind.starts_with("multi") { "multi" } else { "uni" }), 1);
+    let Some(_s) = snap else { acc.inconclusive += 1; acc.count("inconclusive_watchdog", 1); return };
+    let executors = if cfg.kind.starts_with("multi") { cfg.listeners as i32 } else { cfg.m as i32 };
+    let max = ledger.max_in_flight.load(SeqCst);
+    acc.count("max_in_flight_observed", max.max(0) as u64);
+    if max >= 2 { acc.nontrivial(mix(seed & 0xFFFF, (cfg.limit as u64) << 8 | executors as u64)) }
+    if cfg.limit == 1 && executors >= 2 { acc.count("wrapper_runs_with_limit_below_the_number_of_executors", 1) }
+    if max > cfg.limit as i32 * executors {
+        let v = J::obj().with("what", J::s(format!("{max} item futures were in progress at one instant; the concurrency limit is {} for each of the {executors} executor(s) of this {}", cfg.limit, if cfg.kind.starts_with("multi") { "Multi" } else { "Uni" })))
+            .with("sigs", J::Arr(vec![J::obj().with("anomaly", J::s("concurrency_limit_exceeded")).with("executor", J::s("wrapper")).with("with_timeout", J::Bool(cfg.with_timeout))])).with("config", cfg.json());
+        file_violation(args, acc, seed, verbose, v);
+    }
+}
 
 fn single(args: &Args, acc: &mut Acc, seed: u64, verbose: bool) {
     let mut rng = Rng::new(seed);
@@ -186,6 +236,8 @@ fn single(args: &Args, acc: &mut Acc, seed: u64, verbose: bool) {
     acc.count(if cfg.rt == Rt::CurrentPaused { "runs_on_paused_current_thread_runtime" } else { "runs_on_multi_thread_runtime" }, 1);
     let Some(o) = o else { acc.inconclusive += 1; acc.count("inconclusive_watchdog", 1); if acc.notes.len() < 10 { acc.notes.push(format!("watchdog: {}", cfg.json().to_string())) } return };
     acc.count("items", cfg.script.len() as u64);
+    if cfg.aged_ms > 0 { acc.count("runs_whose_executor_had_outlived_its_timeout_when_the_first_item_arrived", 1) }
+    acc.count("items_cancelled_by_the_timeout(in-flight time checked against the timeout)", ledger.cancelled_after_ms.lock().unwrap().len() as u64);
     let problems = evaluate(&cfg, &ledger, &o);
     let interesting = cfg.script.iter().any(|b| !matches!(b, Beh::Ok { .. }));
     if interesting { acc.nontrivial(cfg.script.iter().fold(mix(cfg.limit as u64, cfg.instruments as u64 * 7 + cfg.timeout_ms), |h, b| mix(h, match b { Beh::Ok { y, sleep } => *y as u64 * 16 + *sleep as u64, Beh::Err { y, sleep } => 1000 + *y as u64 * 16 + *sleep as u64, Beh::Slow => 2000, Beh::SlowErr => 3000 })) ^ cfg.variant as u64) }
